@@ -277,11 +277,11 @@ def probes(ctx):
          "reference-dsl-output-statements.md: emit1/emit send the variables' CURRENT values to the output record stream"),
         ("emit1-emits-map-by-reference", 'end{m = {"x": 1}; emit1 m; m["x"] = 2; emit1 m}', [], [R(("x", ("int", 1))), R(("x", ("int", 2)))],
          "same, local map"),
-        # fix 310ab990d (clone c14-repo): xs[n+1][k] = v converted the package-level NULL constant in place
+        # fix ce148e68e (clone c14-repo): xs[n+1][k] = v converted the package-level NULL constant in place
         (NULLCLS, 'end{xs = []; xs[1]["k"] = 5; ys = [7]; ys[2]["j"] = 6; emit1 {"r": ys}}', [],
          [R(("r", ("arr", [("int", 7), ("map", [("j", ("int", 6))])])))],
          "reference-main-arrays.md auto-extend: a write one past the end grows THAT array by one; other arrays' new elements are unaffected"),
-        # fix 600e7ca15 (clone c14-repo): $[[n]] / $[[[n]]] read in a function called from an end block dereferenced the nil record
+        # fix 206974ae4 (clone c14-repo): $[[n]] / $[[[n]]] read in a function called from an end block dereferenced the nil record
         ("positional-read-without-record-panics", 'func f() { return typeof($[[1]]) . typeof($[[[1]]]) } end { print f() }', [], [("s", "absentabsent")],
          "reference-dsl-variables.md: field references outside the record context are absent"),
     ]
@@ -507,7 +507,7 @@ def cells(ctx, bits):
                 fd = {"name": name, "params": [], "ret": "any", "body": [("assign", ("local", "xs"), [], init, False), st, ("return", ("local", "xs"))]}
                 em = ("emit1", ("maplit", [(("str", "r"), ("call", name, []))]))
                 if kind == "assign" and len(idx) == 2 and n is not None and idx[0] == ("int", n + 1):
-                    # auto-extend with a further index: a program of its own (on a tree without fix 310ab990d the first such
+                    # auto-extend with a further index: a program of its own (on a tree without fix ce148e68e the first such
                     # assignment converts the shared NULL constant, and every later one in the same program sees it)
                     alone.append((fd, em))
                     continue
